@@ -84,9 +84,14 @@ def make_pool(cls_name, mod, size=3):
     if cls_name == "SimpleTaskPool":
         return SimpleTaskPool(mod.work, args=("a",), kwargs={"k": 1}, pool_size=size, name="ctl")
     if cls_name == "SubPool":         # a subclass adding a public method and a public property (postponed annotations)
-        ns = {}
-        exec(SUBCLASS_SRC, {"TaskPool": TaskPool, "__name__": "ctl_subpool"}, ns)
-        return ns["SubPool"](pool_size=size, name="ctl")
+        import types
+        m = sys.modules.get("ctl_subpool")
+        if m is None or getattr(m, "_TaskPool", None) is not TaskPool:
+            m = types.ModuleType("ctl_subpool")      # a real module, so that inspect.getdoc can find inherited docstrings
+            m.TaskPool = m._TaskPool = TaskPool
+            exec(SUBCLASS_SRC, m.__dict__)
+            sys.modules["ctl_subpool"] = m
+        return m.SubPool(pool_size=size, name="ctl")
     raise ValueError(cls_name)
 
 
@@ -113,6 +118,9 @@ class SubPool(TaskPool):
         return 1
     def _hidden(self) -> None:
         """Not public."""
+    # overrides without a docstring of their own: the description is inherited (inspect.getdoc)
+    def lock(self) -> None:
+        super().lock()
 '''
 
 
